@@ -16,7 +16,7 @@ fn five_kinds() -> Vec<SubmitSpec> {
 
 pub fn family_for(property: &str) -> &'static str {
     match property {
-        "C01" => "resolve", "C04" => "qos-delivery", "C05" => "inbound", "C06" => "packet-ids", "C07" => "handshake", "C08" => "service-time",
+        "C16" => "limits", "C01" => "resolve", "C04" => "qos-delivery", "C05" => "inbound", "C06" => "packet-ids", "C07" => "handshake", "C08" => "service-time",
         "C09" => "flow-control", "C10" => "ordering", "C11" => "robustness", "C14" => "keepalive", "C15" => "offline", "C17" => "alias", "C18" => "timeouts",
         _ => "",
     }
@@ -406,6 +406,28 @@ pub fn build(family: &str, tier: Tier) -> Vec<Cfg> {
                 c.max_submits = 0; c.max_conns = 2; c.budget = 1; c.max_depth = 20;
                 c.allow.close = true;
                 out.push(c);
+            }
+        }
+        "limits" => {
+            let restrictive = ConnackTemplate { maximum_qos: Some(1), retain_available: Some(false), maximum_packet_size: Some(45), wildcard_subscriptions_available: Some(false), shared_subscriptions_available: Some(false), subscription_identifiers_available: Some(false), topic_alias_maximum: Some(2), ..Default::default() };
+            let qos0 = ConnackTemplate { maximum_qos: Some(0), ..Default::default() };
+            let permissive = ConnackTemplate::default();
+            let retain = |topic: &str| Pkt::Publish(VPublish { topic: topic.into(), qos: 0, retain: true, ..Default::default() });
+            let sub_with_id = Pkt::Subscribe(VSubscribe { subscriptions: vec![VSubscription { topic_filter: "f".into(), qos: 1, ..Default::default() }], subscription_identifier: Some(5), ..Default::default() });
+            for (name, by_conn) in [("restrictive", vec![restrictive.clone()]), ("qos0", vec![qos0.clone()]), ("permissive-then-restrictive", vec![permissive.clone(), restrictive.clone()]), ("restrictive-then-permissive", vec![restrictive.clone(), permissive.clone()])] {
+                for resolver in [ResolverKind::Unset, ResolverKind::Lru(2)] {
+                    if !thorough && resolver != ResolverKind::Unset && name != "restrictive" { continue; }
+                    let mut c = Cfg::base("limits", &format!("{}-{:?}", name, resolver));
+                    c.connack_by_conn = by_conn.clone(); c.resolver = resolver;
+                    c.submits = vec![spec("pub2", publish("t", 2)), spec("pub1", publish("t", 1)), spec("retain", retain("t")), spec("big", big_publish("t", 1, 60)), spec("sub-wild", subscribe(&["a/#"])), spec("sub-shared", subscribe(&["$share/g/a"])), spec("sub-id", sub_with_id.clone()), spec("sub", subscribe(&["f"])), spec("pub0", publish("t", 0))];
+                    c.max_submits = if thorough { 3 } else { 2 };
+                    c.max_conns = 2;
+                    c.budget = 1;
+                    c.max_depth = 24;
+                    c.allow.close = true;
+                    c.session_answers = vec![true, false];
+                    out.push(c);
+                }
             }
         }
         "timeouts" => {
